@@ -1228,11 +1228,16 @@ def gen_c17(rng: random.Random, sid: str, thorough: bool = False) -> dict:
     merged: List[Tuple[int, int, dict]] = []
     t = 0
     k = 0
+    # (the domain: no API call on a service while its own announcement sequence is still running -- a withdrawal of everything
+    # while the registration that was slipped in above is still probing or announcing would be one)
+    slipped = [tt for tt, st in extra if st['op'] == 'reg_bg']
     for s in steps:
         if s['op'] == 'at':
             t = s['t']
             continue
         if t > t_close:
+            continue
+        if s['op'] == 'unreg_all' and any(tt <= t <= tt + 350 + 450 + 50 for tt in slipped):
             continue
         merged.append((t, k, s))
         k += 1
